@@ -123,9 +123,11 @@ static void gen_mul(opcase_t *c, rng_t *r, int maxdim) {
   } else
     c->in[2] = gen_mat(r, l, n, pb);
   int need_c = accumulate || v == V__MUL_NAIVE || v == V__MUL_VA || v == V__MUL_M4RM || v == V_DJB;
+  /* the accumulate wrappers that document / handle "C may be NULL" (C is then the zero matrix): result must be A*B */
+  if ((v == V_ADDMUL || v == V_ADDSQR || v == V_ADDMUL_MP || v == V_ADDMUL_M4RM) && rng_chance(r, 1, 8)) need_c = 0;
   if (v == V_DJB)
     c->in[0] = rm_new(m, n); /* zeroed target */
-  else if (need_c || rng_chance(r, 3, 5))
+  else if (need_c || (!accumulate && rng_chance(r, 3, 5)))
     c->in[0] = gen_mat(r, m, n, accumulate ? gen_pat(r) : PAT_DENSE);
   c->ip[0] = cutoff;
   c->ip[1] = k;
@@ -203,7 +205,7 @@ static void check_mul(opcase_t *c) {
   rm_t *P = rm_mul(A, B);
   if (rm_is_zero(P)) c->nontrivial = 0;
   rm_t *E = P;
-  if (c->ip[3]) {
+  if (c->ip[3] && c->in[0]) {
     E = rm_add(P, c->in[0]);
     rm_free(P);
   }
